@@ -4,16 +4,16 @@
 set -u
 export GOFLAGS=-mod=readonly GOPROXY=off GOSUMDB=off GOTOOLCHAIN=local GOCACHE=${GOCACHE:-/verif/build/gocache}
 V=/verif
+B=$V/${VERIF_BINDIR:-bin}
 bash $V/lib/build.sh || exit 2
-rm -rf $V/build/rw
-(cd /repo && $V/bin/vp rewrite -typed ./internal/funcutil ./analysis/dataflow ./analysis/taint ./analysis/backtrace ./analysis ./analysis/lang ./analysis/escape) > $V/build/rewrite.json 2> $V/build/rewrite.err
+(cd /repo && $B/vp rewrite -outdir $V/build/rw-${VERIF_BINDIR:-bin} -typed ./internal/funcutil ./analysis/dataflow ./analysis/taint ./analysis/backtrace ./analysis ./analysis/lang ./analysis/escape) > $V/build/rewrite-${VERIF_BINDIR:-bin}.json 2> $V/build/rewrite.err
 if [ $? -ne 0 ]; then cat $V/build/rewrite.err >&2; echo "TOOL-ERROR: rewriter cannot transform the current tree" >&2; exit 2; fi
 EXTRA=$(python3 -c "
 import json
-d=json.load(open('$V/build/rewrite.json'))
+d=json.load(open('$V/build/rewrite-${VERIF_BINDIR:-bin}.json'))
 print(' '.join(f'{k}={v}' for k,v in d['replace'].items()))")
-python3 $V/lib/mkoverlay.py ${VERIF_EXTRA_OVERLAY:-} $EXTRA > $V/build/overlay-sched.json || exit 2
+python3 $V/lib/mkoverlay.py ${VERIF_EXTRA_OVERLAY:-} $EXTRA > $V/build/overlay-sched-${VERIF_BINDIR:-bin}.json || exit 2
 cd /repo || exit 2
-go build -tags verif -overlay $V/build/overlay-sched.json -o $V/bin/vps ./internal/zzverif/cmd/vps 2> $V/build/build-sched.log
+go build -tags verif -overlay $V/build/overlay-sched-${VERIF_BINDIR:-bin}.json -o $B/vps ./internal/zzverif/cmd/vps 2> $V/build/build-sched.log
 if [ $? -ne 0 ]; then cat $V/build/build-sched.log >&2; echo "TOOL-ERROR: cannot build schedule worker" >&2; exit 2; fi
 exit 0
